@@ -95,6 +95,25 @@ Theorem C17_unary_ops_on_si_value_keep_unit :
 Proof. intros N L c q a u Hc. exact (unary_named N gen_module L gen_base_factor_one17 c q a u Hc). Qed.
 Print Assumptions C17_unary_ops_on_si_value_keep_unit.
 
+(* math.floor / math.ceil / math.trunc / round of a quantity work on the REPORTED DISPLAY VALUE and keep the
+   unit: whatever the four roundings are, the result is the quantity built from the rounded display value in the
+   same unit, and its display value is that rounded value (exact under the number laws) *)
+Theorem C17_rounding_helpers_act_on_display_value :
+  forall N, num_laws N -> forall (X : mathops N) k c q a u f n d dv r,
+    get_class gen_classes c = Some q -> glookup u (qc_units q) = Some (GFac f n d) -> n <> 0%Z ->
+    displayvalue N gen_module (VNamed c a u) = Val dv -> round_with X k dv = Val r ->
+    q_round N gen_module X k c a u = Val (VNamed c (fmul N r (ffac N f n d)) u) /\
+    displayvalue N gen_module (VNamed c (fmul N r (ffac N f n d)) u) = Val r.
+Proof. intros N L. exact (round_on_display_value N gen_module L). Qed.
+Print Assumptions C17_rounding_helpers_act_on_display_value.
+
+(* the binary64 roundings the check executes are the integer roundings (half to even for round) *)
+Example C17_float_roundings :
+  float_int_round RFloor 2.5%float = Val 2%float /\ float_int_round RCeil 2.5%float = Val 3%float /\
+  float_int_round RTrunc (-2.5)%float = Val (-2)%float /\ float_int_round RRound 2.5%float = Val 2%float /\
+  float_int_round RRound 3.5%float = Val 4%float /\ float_int_round RFloor (-0.5)%float = Val (-1)%float.
+Proof. repeat split; vm_compute; reflexivity. Qed.
+
 (* ---------------------------------------------------------------- tables *)
 (* every unit key is a string with a finite non-zero factor, and the float
    literal of each factor denotes exactly the rational the checks compute with *)
@@ -242,7 +261,8 @@ Theorem C17_generated_model_is_the_proved_model : forall N,
   (forall v u, is_quantity N v = false -> gen_SI_construct N gen_module (conc v) u = rmap conc (mk_si N v u)) /\
   (forall op x, gen_unop_eval N gen_module op x = unop_eval N gen_module op x) /\
   (forall op c a u y, match op with Add | Sub | Cmp _ => True | _ => False end ->
-     gen_binop_eval N gen_module op (VNamed c a u) y = binop_eval N gen_module op (VNamed c a u) y).
+     gen_binop_eval N gen_module op (VNamed c a u) y = binop_eval N gen_module op (VNamed c a u) y) /\
+  (forall X k x, gen_round_eval N gen_module X k x = round_eval N gen_module X k x).
 Proof. intros N. exact (conversion_generated_agree N gen_module). Qed.
 Print Assumptions C17_generated_model_is_the_proved_model.
 
@@ -291,6 +311,16 @@ Theorem C17_generated_unary_ops_on_si_value_keep_unit :
     gen_unop_eval N gen_module Pos (VNamed c a u) = Val (OVal (VNamed c a u)).
 Proof. intros N L. exact (gen_unary_named N gen_module L gen_base_factor_one17). Qed.
 Print Assumptions C17_generated_unary_ops_on_si_value_keep_unit.
+
+(* the generated __floor__ / __ceil__ / __trunc__ / __round__ work on the display value and keep the unit *)
+Theorem C17_generated_rounding_helpers_act_on_display_value :
+  forall N, num_laws N -> forall (X : mathops N) k c q a u f n d dv r,
+    get_class gen_classes c = Some q -> glookup u (qc_units q) = Some (GFac f n d) -> n <> 0%Z ->
+    gen_Quantity_displayvalue N gen_module (GNamed c a u) = Val dv -> round_with X k dv = Val r ->
+    gen_round_eval N gen_module X k (VNamed c a u) = Val (OVal (VNamed c (fmul N r (ffac N f n d)) u)) /\
+    gen_Quantity_displayvalue N gen_module (GNamed c (fmul N r (ffac N f n d)) u) = Val r.
+Proof. intros N L. exact (gen_round_on_display_value N gen_module L). Qed.
+Print Assumptions C17_generated_rounding_helpers_act_on_display_value.
 
 (* the generated __str__ is total on every declared unit: str(displayvalue), a blank, the display spelling *)
 Theorem C17_generated_str_total :
